@@ -53,7 +53,6 @@ static size_t block_end_off(const std::vector<Tok> &toks, int b) {
     for (size_t i = 0; i < toks.size(); ++i) { if (toks[i].kind == T_BLOCK) ++seen; if (seen == b && toks[i].kind != T_WS) end = toks[i].end; if (seen > b) break; }
     return end;
 }
-static ustr fresh_name(const char *base) { return U(base); }
 
 static bool plant(Plant &p, int cls, Rng &r) {
     std::vector<ItemSite> sites; collect_sites(p.doc, sites);
@@ -275,5 +274,290 @@ RunResult run_c12(const RunSpec &spec) {
     } catch (Violation &v) { bad.reset(new Violation(v)); }
     if (out.cif) { int rc = cif_destroy(out.cif); (void) rc; }
     if (bad) throw *bad;
+    return res;
+}
+
+// ------------------------------------------------------------------------------------------------ C15
+enum Flow { F_GO, F_SKIP_CUR, F_SKIP_SIB, F_STOP };
+struct Acceptor {
+    const char *prop = "C15";
+    std::vector<HEvt> obs; size_t pos = 0; const HandlerProgram *hp; long ord[11]; bool syn; bool storing;
+    int rc = CIF_OK; bool stopped = false; std::string mode;
+    Doc stored;                                   // what should end up in the CIF
+    [[noreturn]] void fail(const std::string &sig, const std::string &msg) {
+        std::string ctx; for (size_t i = (pos > 4 ? pos - 4 : 0); i < obs.size() && i < pos + 3; ++i) ctx += strprintf("%s[%d:%s] ", i == pos ? "->" : "", obs[i].kind, obs[i].what.substr(0, 40).c_str());
+        throw Violation("C15.order", mode + ":" + sig, msg + " (" + mode + " mode; events around: " + ctx + ")", -1);
+    }
+    Flow flow(int r) { if (r == CIF_TRAVERSE_CONTINUE) return F_GO; if (r == CIF_TRAVERSE_SKIP_CURRENT) return F_SKIP_CUR; if (r == CIF_TRAVERSE_SKIP_SIBLINGS) return F_SKIP_SIB; stopped = true; rc = r > 0 ? r : CIF_OK; return F_STOP; }
+    // handler event of kind hk (0..10). Returns the flow directive; *called tells whether an optional event occurred.
+    Flow H(int hk, int evkind, const std::string &what, bool check_what, bool optional = false, bool *called = NULL) {
+        if (called) *called = false;
+        if (hp->resp[hk].empty()) return F_GO;                 // no handler for this kind: nothing is delivered
+        bool match = pos < obs.size() && obs[pos].kind == evkind;
+        if (!match) {
+            if (optional) return F_GO;
+            fail(strprintf("missing:%d", evkind), strprintf("expected handler callback kind %d (%s) but the next callback is %s", evkind, what.c_str(), pos < obs.size() ? strprintf("kind %d (%s)", obs[pos].kind, obs[pos].what.substr(0, 60).c_str()).c_str() : "none"));
+        }
+        if (check_what && obs[pos].what != what) fail(strprintf("what:%d", evkind), strprintf("callback kind %d delivered \"%s\", the document denotes \"%s\"", evkind, obs[pos].what.substr(0, 200).c_str(), what.substr(0, 200).c_str()));
+        ++pos; if (called) *called = true;
+        int r = hp->resp[hk][(size_t) (ord[hk] % (long) hp->resp[hk].size())]; ++ord[hk];
+        return flow(r);
+    }
+    void S(int evkind, const std::string &what) {
+        if (!syn) return;
+        // (the text handed to the keyword callback is not pinned by the property: only its presence and position are checked)
+        if (!(pos < obs.size() && obs[pos].kind == evkind && (evkind == EV_KEYWORD || obs[pos].what == what))) fail(strprintf("syntax:%d", evkind), strprintf("expected syntax callback kind %d \"%s\" next", evkind, what.c_str()));
+        ++pos;
+    }
+    static std::string synw(const ustr &s) { return strprintf("%zu:", s.size()) + u8(s.size() > 64 ? s.substr(0, 64) : s); }
+    static MValue ev_value(const MValue &v, int version) { MValue o = v; if (v.kind == CIF_NUMB_KIND) o = MValue::chr(v.text, v.quoted); if (o.kind == CIF_CHAR_KIND && !o.quoted && version < 2) for (char16_t ch : o.text) if (ch == '[' || ch == ']' || ch == '{' || ch == '}') o.quoted = true; for (auto &e : o.elems) e = ev_value(e, version); for (auto &e : o.entries) e.second = ev_value(e.second, version); o.has_num = false; return o; }
+    Flow walk_loop(const DItem &l, std::vector<DItem> &out, int version) {
+        S(EV_KEYWORD, "5:loop_");          // keyword text is reported as scanned: compare case-insensitively below
+        for (auto &n : l.names) S(EV_DATANAME, synw(n));
+        std::string names; for (auto &n : l.names) { names += u8(n); names += " "; }
+        Flow r = H(6, EV_LOOP_START, names, true);
+        if (r == F_STOP) return F_STOP;
+        if (r != F_GO) { bool called; Flow e = H(7, EV_LOOP_END, "", false, true, &called); if (called) { if (e == F_STOP) return F_STOP; if (e == F_SKIP_SIB) return F_SKIP_SIB; } return r == F_SKIP_SIB ? F_SKIP_SIB : F_GO; }
+        DItem sl = l; sl.packets.clear(); bool bypass = false;
+        for (auto &row : l.packets) {
+            Flow ps = H(8, EV_PACKET_START, "", false);
+            if (ps == F_STOP) { out.push_back(sl); return F_STOP; }
+            if (ps != F_GO) { bool called; Flow e = H(9, EV_PACKET_END, "", false, true, &called); if (called) { if (e == F_STOP) { out.push_back(sl); return F_STOP; } if (e == F_SKIP_SIB) bypass = true; } if (ps == F_SKIP_SIB) bypass = true; if (bypass) break; continue; }
+            for (size_t k = 0; k < row.size(); ++k) { Flow it = H(10, EV_ITEM, u8(l.names[k]) + "=" + canon(ev_value(row[k], version)), true); if (it == F_STOP) { out.push_back(sl); return F_STOP; } if (it != F_GO) fail("unsupported", "harness: skip response for a looped item is not generated"); }
+            Flow pe = H(9, EV_PACKET_END, "", false);
+            if (pe == F_STOP) { out.push_back(sl); return F_STOP; }
+            if (pe == F_GO) sl.packets.push_back(row);
+            if (pe == F_SKIP_SIB) { bypass = true; break; }
+        }
+        out.push_back(sl);
+        bool called; Flow e = H(7, EV_LOOP_END, "", false, bypass, &called);
+        if (e == F_STOP) return F_STOP;
+        if (e == F_SKIP_SIB && (called || !bypass)) return F_SKIP_SIB;
+        return F_GO;
+    }
+    Flow walk_items(const std::vector<DItem> &items, std::vector<DItem> &out, int version, bool &rest_bypassed) {
+        rest_bypassed = false;
+        for (auto &it : items) {
+            if (it.kind == D_SCALAR) {
+                S(EV_DATANAME, synw(it.name));
+                Flow r = H(10, EV_ITEM, u8(it.name) + "=" + canon(ev_value(it.value, version)), true);
+                if (r == F_STOP) return F_STOP;
+                if (r == F_GO) out.push_back(it);
+                if (r == F_SKIP_SIB) { rest_bypassed = true; return F_GO; }
+            } else if (it.kind == D_LOOP) {
+                Flow r = walk_loop(it, out, version);
+                if (r == F_STOP) return F_STOP;
+                if (r == F_SKIP_SIB) { rest_bypassed = true; return F_GO; }
+            } else {
+                DItem f; f.kind = D_FRAME; f.code = it.code;
+                Flow r = walk_container(it.code, it.items, f.items, false, version);
+                out.push_back(f);
+                if (r == F_STOP) return F_STOP;
+                if (r == F_SKIP_SIB) { rest_bypassed = true; return F_GO; }
+            }
+        }
+        return F_GO;
+    }
+    Flow walk_container(const ustr &code, const std::vector<DItem> &items, std::vector<DItem> &out, bool is_block, int version) {
+        (void) code;
+        Flow r = H(is_block ? 2 : 4, is_block ? EV_BLOCK_START : EV_FRAME_START, "", false);
+        if (r == F_STOP) return F_STOP;
+        bool rest = false;
+        if (r == F_GO) { Flow c = walk_items(items, out, version, rest); if (c == F_STOP) return F_STOP; }
+        bool called; Flow e = H(is_block ? 3 : 5, is_block ? EV_BLOCK_END : EV_FRAME_END, "", false, r != F_GO || rest, &called);
+        if (e == F_STOP) return F_STOP;
+        if (r == F_SKIP_SIB) return F_SKIP_SIB;
+        if (e == F_SKIP_SIB) return F_SKIP_SIB;
+        return F_GO;
+    }
+    void walk_cif(const Doc &d) {
+        stored = Doc(); stored.version = d.version;
+        Flow r = H(0, EV_CIF_START, "", false);
+        if (r == F_STOP) return;
+        bool sib = false;
+        if (r == F_GO) for (auto &b : d.blocks) { DBlock sb; sb.code = b.code; Flow c = walk_container(b.code, b.items, sb.items, true, d.version); stored.blocks.push_back(sb); if (c == F_STOP) return; if (c == F_SKIP_SIB) { sib = true; break; } }
+        Flow e = H(1, EV_CIF_END, "", false, r != F_GO || sib);
+        (void) e;      // cif_end: any navigation response means CIF_OK; a positive one is the return code (handled by flow())
+    }
+};
+static std::vector<int> gen_table(Rng &r, bool allow_skip, bool allow_stop) {
+    std::vector<int> t; size_t n = (size_t) r.range(1, 5);
+    for (size_t i = 0; i < n; ++i) {
+        unsigned w = (unsigned) r.below(100);
+        if (w < 70) t.push_back(CIF_TRAVERSE_CONTINUE);
+        else if (w < 82) t.push_back(allow_skip ? CIF_TRAVERSE_SKIP_CURRENT : CIF_TRAVERSE_CONTINUE);
+        else if (w < 92) t.push_back(allow_skip ? CIF_TRAVERSE_SKIP_SIBLINGS : CIF_TRAVERSE_CONTINUE);
+        else if (w < 96) t.push_back(allow_stop ? CIF_TRAVERSE_END : CIF_TRAVERSE_CONTINUE);
+        else { static const int C[] = { CIF_CLIENT_ERROR, 1, 140, CIF_ERROR }; t.push_back(allow_stop ? C[r.below(4)] : CIF_TRAVERSE_CONTINUE); }
+    }
+    return t;
+}
+static bool doc_has_loops(const Doc &d) { std::function<bool(const std::vector<DItem> &)> rec = [&](const std::vector<DItem> &v) { for (auto &i : v) { if (i.kind == D_LOOP) return true; if (i.kind == D_FRAME && rec(i.items)) return true; } return false; }; for (auto &b : d.blocks) if (rec(b.items)) return true; return false; }
+static std::vector<HEvt> strip_ws(const std::vector<HEvt> &e) { std::vector<HEvt> o; for (auto &x : e) if (x.kind != EV_WS) o.push_back(x); return o; }
+RunResult run_c15(const RunSpec &spec) {
+    const char *prop = "C15";
+    RunResult res;
+    Rng dr(hmix(run_seed_of(spec), hstr("doc")));
+    DocCfg cfg; cfg.version = dr.chance(4, 5) ? 2 : 1;
+    cfg.max_blocks = (int) dr.range(1, 3); cfg.max_items = (int) dr.range(1, 6); cfg.max_loop_names = (int) dr.range(1, 3); cfg.max_packets = (int) dr.range(1, 4);
+    cfg.frames = dr.chance(2, 3); cfg.magic11 = dr.chance(1, 2); cfg.vals.max_depth = (int) dr.range(0, 2); cfg.vals.max_members = 3; cfg.vals.allow_long = false; cfg.vals.allow_composite = cfg.version >= 2;
+    Doc doc = gen_doc(dr, cfg);
+    g_plan_n_ops = 0; g_plan_fault_ops.clear(); plan_ready();
+    Rng lr(hmix(run_seed_of(spec), hstr("layout")));
+    Layout lay = layout_doc(doc, lr, cfg);
+    Rng r(hmix(run_seed_of(spec), hstr("callbacks")));
+    ParseOpts o; o.policy = 1; o.hp.present = true; o.syntax_callbacks = r.chance(2, 3);
+    bool all_continue = r.chance(1, 4); bool loops = doc_has_loops(doc);
+    for (int k = 0; k < 11; ++k) {
+        if (r.chance(1, 8)) continue;                                  // no handler for this kind
+        if (all_continue) { o.hp.resp[k].push_back(CIF_TRAVERSE_CONTINUE); continue; }
+        bool allow_skip = !(k == 10 && loops);                         // skip responses of looped items are unspecified
+        o.hp.resp[k] = gen_table(r, allow_skip, true);
+    }
+    o.hp.reenter = r.chance(1, 2);
+    std::vector<unsigned char> bytes = lay.utf8();
+    Knobs kn = gen_knobs(r, true); if (spec.mods.default_knobs) kn = Knobs();
+    ev("C15 v%d %zu bytes all_continue=%d syntax=%d", cfg.version, bytes.size(), all_continue ? 1 : 0, o.syntax_callbacks ? 1 : 0);
+    if (g_log.keep_text) { g_log.add("text: " + snippet(lay.text, 100000)); std::string t; for (int k = 0; k < 11; ++k) { t += strprintf(" k%d[", k); for (int x : o.hp.resp[k]) t += strprintf("%d ", x); t += "]"; } g_log.add("program:" + t); }
+    StreamCfg sc;
+    std::vector<HEvt> seqs[2]; int rcs[2] = {0, 0};
+    for (int mode = 0; mode < 2; ++mode) {
+        ParseOpts om = o; om.target = mode == 0 ? 1 : 0;
+        kn.apply();
+        ParseOutcome out = run_parse(bytes, om, sc, NULL);
+        Knobs::reset();
+        ev("%s parse -> %s, %zu callbacks, %zu errors", mode == 0 ? "storing" : "syntax-only", rc_name(out.rc), out.events.size(), out.errs.size());
+        if (g_log.keep_text) { std::string t; for (auto &e : strip_ws(out.events)) t += strprintf("[%d:%s] ", e.kind, e.what.substr(0, 50).c_str()); g_log.add("events: " + t); }
+        std::unique_ptr<Violation> bad;
+        try {
+            if (!out.errs.empty()) DVIOLATE("order", strprintf("error:%s", rc_name(out.errs[0].code)), "a well-formed document triggered the error callback: %s", errs_str(out.errs).c_str());
+            Acceptor a; a.obs = strip_ws(out.events); a.hp = &om.hp; memset(a.ord, 0, sizeof a.ord); a.syn = om.syntax_callbacks; a.storing = mode == 0; a.mode = mode == 0 ? "storing" : "syntax_only";
+            // keyword text is delivered as written (any case): normalise for comparison
+            for (auto &e : a.obs) if (e.kind == EV_KEYWORD) { std::string w = e.what; for (auto &ch : w) ch = (char) tolower(ch); e.what = w; }
+            if (bytes.empty() && a.obs.empty()) { seqs[mode] = out.events; rcs[mode] = out.rc; if (out.cif) { int rc = cif_destroy(out.cif); (void) rc; } continue; }   // an empty input is answered without any callback (unspecified)
+            a.walk_cif(doc);
+            if (a.pos != a.obs.size()) a.fail("extra", strprintf("%zu callback(s) delivered after the expected end of the sequence", a.obs.size() - a.pos));
+            if (out.rc != a.rc) DVIOLATE("rc", strprintf("%s:%s!=%s", a.mode.c_str(), rc_name(out.rc), rc_name(a.rc)), "cif_parse returned %s, the handler program prescribes %s (%s mode)", rc_name(out.rc), rc_name(a.rc), a.mode.c_str());
+            g_stats.cover(hmix(hstr("c15"), hmix((uint64_t) mode, (uint64_t) (a.rc + 5) * 2 + (a.stopped ? 1 : 0))));
+            for (int k = 0; k < 11; ++k) for (int x : om.hp.resp[k]) g_stats.cover(hmix(hmix(hstr("c15r"), (uint64_t) k), hmix((uint64_t) (x + 5), (uint64_t) mode)));
+            if (mode == 0 && !a.stopped) {
+                if (!out.cif) DVIOLATE("stored", "no_cif", "no CIF was produced");
+                MCif got = dump_cif(out.cif, prop), want = expected_model(a.stored);
+                DumpOpts dop; dop.drop_empty_loops = true;
+                std::string x = canon(want, dop), y = canon(got, dop);
+                if (x != y) DVIOLATE("stored", all_continue ? "all_continue" : "filtered", "stored content differs from what the handler program lets through: %s", first_diff(x, y).c_str());
+            }
+            // whitespace / syntax callbacks arrive in document order
+            size_t last = 0; for (auto &e : out.events) if (e.kind >= EV_WS && e.kind <= EV_DATANAME) { if (e.line < last) DVIOLATE("order", "syntax_line_order", "syntax callbacks are not in document order (line %zu after line %zu)", e.line, last); last = e.line; }
+        } catch (Violation &v) { bad.reset(new Violation(v)); }
+        seqs[mode] = out.events; rcs[mode] = out.rc;
+        if (out.cif) { int rc = cif_destroy(out.cif); (void) rc; }
+        if (bad) throw *bad;
+    }
+    // the same sequence of handler, syntax and error callbacks in both modes (container handles are not compared)
+    {
+        auto norm = [](const std::vector<HEvt> &v) { std::vector<std::string> o; for (auto &e : v) { bool cont = e.kind >= EV_BLOCK_START && e.kind <= EV_FRAME_END; o.push_back(strprintf("%d:", e.kind) + (cont ? std::string() : e.what)); } return o; };
+        std::vector<std::string> a = norm(seqs[0]), b = norm(seqs[1]);
+        if (a != b) { size_t i = 0; while (i < a.size() && i < b.size() && a[i] == b[i]) ++i; DVIOLATE("syntax_only_same", strprintf("k%s", i < a.size() ? a[i].substr(0, a[i].find(':')).c_str() : "end"), "storing and syntax-only parses deliver different callback sequences from position %zu: storing has %s, syntax-only has %s", i, i < a.size() ? a[i].substr(0, 80).c_str() : "(end)", i < b.size() ? b[i].substr(0, 80).c_str() : "(end)"); }
+        if (rcs[0] != rcs[1]) DVIOLATE("syntax_only_same", "rc", "storing parse returned %s, syntax-only parse %s", rc_name(rcs[0]), rc_name(rcs[1]));
+    }
+    return res;
+}
+
+// ------------------------------------------------------------------------------------------------ C11
+static std::vector<unsigned char> enc_text(const ustr &t, int enc, bool bom) {
+    // enc: 0 UTF-8, 1 UTF-16LE, 2 UTF-16BE, 3 UTF-32LE, 4 UTF-32BE, 5 ISO-8859-1
+    std::vector<unsigned char> o;
+    auto put16 = [&](unsigned v, bool le) { if (le) { o.push_back(v & 0xff); o.push_back((v >> 8) & 0xff); } else { o.push_back((v >> 8) & 0xff); o.push_back(v & 0xff); } };
+    auto put32 = [&](uint32_t v, bool le) { for (int i = 0; i < 4; ++i) o.push_back((unsigned char) (le ? (v >> (8 * i)) : (v >> (8 * (3 - i))))); };
+    switch (enc) {
+        case 1: case 2: if (bom) put16(0xfeff, enc == 1); for (char16_t c : t) put16(c, enc == 1); break;
+        case 3: case 4: if (bom) put32(0xfeff, enc == 3); for (size_t i = 0; i < t.size(); ++i) { uint32_t c = t[i]; if (c >= 0xd800 && c <= 0xdbff && i + 1 < t.size()) { c = 0x10000 + ((c - 0xd800) << 10) + (t[i + 1] - 0xdc00); ++i; } put32(c, enc == 3); } break;
+        case 5: for (char16_t c : t) o.push_back((unsigned char) c); break;
+        default: if (bom) { o.push_back(0xef); o.push_back(0xbb); o.push_back(0xbf); } { std::vector<unsigned char> u = to_utf8(t); o.insert(o.end(), u.begin(), u.end()); }
+    }
+    return o;
+}
+static const char *const ENCN[] = { "UTF-8", "UTF-16LE", "UTF-16BE", "UTF-32LE", "UTF-32BE", "ISO-8859-1" };
+RunResult run_c11(const RunSpec &spec) {
+    const char *prop = "C11";
+    RunResult res;
+    g_plan_n_ops = 0; g_plan_fault_ops.clear(); plan_ready();
+    Rng r(hmix(run_seed_of(spec), hstr("c11")));
+    int magic = (int) r.below(5);                   // 0 none, 1 #\#CIF_1.1, 2 #\#CIF_1.0, 3 #\#CIF_2.0, 4 2.0 magic on line 2 (= none)
+    static const int PS[] = { -5, 0, 1, 19, 20, 1000 }; int P = PS[r.below(6)];
+    int enc = (int) r.below(6); bool bom = enc >= 1 && enc <= 4 ? true : (enc == 0 ? r.chance(1, 2) : false);
+    int force = r.chance(1, 4) ? 1 : 0;
+    int dsel = (int) r.below(3);                    // default_encoding_name: 0 NULL, 1 the true encoding, 2 a wrong one
+    // process default converter: ICU in this image is built with U_CHARSET_IS_UTF8, so ucnv_setDefaultName() is a no-op and the
+    // "system default" is always UTF-8 -- that dimension of the table cannot be varied here
+    int envc = 0; (void) r.below(3);
+    bool mid_bom = r.chance(1, 5);
+    if (enc == 5) mid_bom = false;           // U+FEFF has no ISO-8859-1 encoding
+    if (spec.mods.default_env) envc = 0;
+    ustr t;
+    if (magic == 1) t += U("#\\#CIF_1.1\n"); else if (magic == 2) t += U("#\\#CIF_1.0\n"); else if (magic == 3) t += U("#\\#CIF_2.0\n"); else if (magic == 4) t += U("# first line\n#\\#CIF_2.0\n");
+    ustr eacute; eacute += (char16_t) 0xe9;
+    t += U("data_d\n_q '''x y'''\n_n '") + eacute + U("'\n");
+    if (mid_bom) { t += U("# a byte-order mark in the middle: "); t += (char16_t) 0xfeff; t += U("\n"); }
+    t += U("_z 1\n");
+    std::vector<unsigned char> bytes = enc_text(t, enc, bom);
+    // ---- the documented decision table
+    int dialect; bool has20 = magic == 3, other_magic = magic == 1 || magic == 2;
+    if (P < 0) dialect = 1; else if (P >= 20) dialect = 2; else if (has20) dialect = 2; else if (other_magic) dialect = 1; else dialect = P > 0 ? 2 : 1;
+    const char *dname = dsel == 0 ? NULL : (dsel == 1 ? ENCN[enc] : (enc == 5 ? "UTF-8" : "ISO-8859-1"));
+    static const char *const ENVN[] = { "UTF-8", "ISO-8859-1", "US-ASCII" };
+    std::string sysdef = ENVN[envc];
+    std::string decoder;                             // expected decoder
+    if (force) decoder = dname ? dname : sysdef;
+    else if (bom) decoder = ENCN[enc];
+    else if (dialect == 2) decoder = "UTF-8";
+    else decoder = dname ? dname : sysdef;
+    bool decoder_is_true = decoder == ENCN[enc];
+    // cells the property does not pin are not generated: a Unicode signature overridden by force with a byte-incompatible decoder
+    // still has a defined decoder, fine; UTF-16/32 without signature never occurs here (bom is always set for them)
+    g_env.converter = envc == 0 ? 1 : (envc == 1 ? 2 : 3); g_env.apply();
+    ParseOpts o; o.policy = 1; o.target = 1; o.prefer_cif2 = P; o.force_default = force; o.default_encoding = dname;
+    Knobs kn = gen_knobs(r, true); if (spec.mods.default_knobs) kn = Knobs();
+    kn.apply();
+    StreamCfg sc;
+    ev("C11 magic=%d P=%d enc=%s bom=%d force=%d dname=%s env=%s mid_bom=%d -> expect dialect %d decoder %s", magic, P, ENCN[enc], bom ? 1 : 0, force, dname ? dname : "NULL", sysdef.c_str(), mid_bom ? 1 : 0, dialect, decoder.c_str());
+    ParseOutcome out = run_parse(bytes, o, sc, NULL);
+    Knobs::reset(); g_env.reset();
+    ev("cif_parse -> %s errors: %s", rc_name(out.rc), errs_str(out.errs, 10).c_str());
+    g_stats.cover(hmix(hmix(hstr("c11"), (uint64_t) magic * 6 + (uint64_t) (P < 0 ? 0 : P == 0 ? 1 : P < 20 ? 2 : 3)), hmix((uint64_t) enc * 2 + (bom ? 1 : 0), (uint64_t) force * 9 + (uint64_t) dsel * 3 + (uint64_t) envc)));
+    std::unique_ptr<Violation> bad;
+    std::string cell = strprintf("magic%d:P%d:%s:bom%d:force%d", magic, P < 0 ? -1 : P == 0 ? 0 : P < 20 ? 1 : 20, ENCN[enc], bom ? 1 : 0, force);
+    try {
+        bool wrong_reported = false; int n_disallowed = 0;
+        for (auto &e : out.errs) { if (e.code == CIF_WRONG_ENCODING) wrong_reported = true; if (e.code == CIF_DISALLOWED_CHAR) ++n_disallowed; }
+        if (out.rc != CIF_OK || !out.cif) DVIOLATE("version", cell + ":rc", "all errors were accepted but cif_parse returned %s", rc_name(out.rc));
+        // observed dialect: how the triple-quoted probe was read (only meaningful when the decoder can read ASCII-compatible text correctly)
+        // (a signature decoded by a forced, different decoder turns into junk characters in front of the version comment: not pinned)
+        bool ascii_compatible_decode = decoder_is_true || (!bom && (enc == 0 || enc == 5) && (decoder == "UTF-8" || decoder == "ISO-8859-1" || decoder == "US-ASCII"));
+        if (ascii_compatible_decode) {
+            MCif got = dump_cif(out.cif, prop);
+            int observed = 0; ustr ntext; bool have_n = false;
+            for (auto &b : got.blocks) for (auto &l : b.loops) for (auto &p : l.packets) for (auto &kv : p.vals) if (kv.second) { if (kv.first == U("_q")) observed = kv.second->text == U("x y") ? 2 : (kv.second->text == U("''x y''") ? 1 : -1); if (kv.first == U("_n")) { ntext = kv.second->text; have_n = true; } }
+            if (observed != dialect) DVIOLATE("version", strprintf("observed%d:expected%d:magic%d:P%d:bom%d:force%d", observed, dialect, magic, P < 0 ? -1 : P == 0 ? 0 : P < 20 ? 1 : 20, bom ? 1 : 0, force), "input was parsed as CIF %s, the documented rules select CIF %s (magic kind %d, prefer_cif2 %d, %s%s, force %d)", observed == 2 ? "2.0" : observed == 1 ? "1.1" : "?", dialect == 2 ? "2.0" : "1.1", magic, P, ENCN[enc], bom ? "+BOM" : "", force);
+            if (decoder_is_true && (!have_n || ntext != eacute)) DVIOLATE("encoding", strprintf("%s:dname%d:force%d", ENCN[enc], dsel, force), "text decoded with the expected decoder %s does not read back (got %s)", decoder.c_str(), have_n ? u8(ntext).c_str() : "nothing");
+            if (decoder_is_true) { bool want_wrong = dialect == 2 && decoder != "UTF-8"; if (wrong_reported != want_wrong) DVIOLATE("wrong_encoding", cell, "CIF_WRONG_ENCODING %s reported for dialect %d decoded as %s", wrong_reported ? "was" : "was not", dialect, decoder.c_str()); }
+            if (decoder_is_true && dialect == 2) { int want = mid_bom ? 1 : 0; if (n_disallowed != want) DVIOLATE("bom", cell, "CIF 2.0 input with %s byte-order mark inside: %d CIF_DISALLOWED_CHAR report(s), expected %d (errors: %s)", mid_bom ? "a" : "no", n_disallowed, want, errs_str(out.errs, 10).c_str()); }
+        }
+    } catch (Violation &v) { bad.reset(new Violation(v)); }
+    std::string ref_dump;
+    if (out.cif) { int rc = cif_destroy(out.cif); (void) rc; }
+    if (bad) throw *bad;
+    // same text under every signature-carrying encoding gives the same content (and the same dialect)
+    if (spec.run % 3 == 0) {
+        std::string first; int first_enc = -1;
+        for (int e2 = 0; e2 <= 4; ++e2) {
+            ParseOpts o2; o2.policy = 1; o2.target = 1; o2.prefer_cif2 = P;
+            ParseOutcome oc = run_parse(enc_text(t, e2, true), o2, sc, NULL);
+            std::string d; if (oc.cif) { try { d = canon(dump_cif(oc.cif, prop)); } catch (Violation &v) { d = "dump failed: " + v.detail; } int rc = cif_destroy(oc.cif); (void) rc; }
+            if (first_enc < 0) { first = d; first_enc = e2; }
+            else if (d != first) DVIOLATE("same_content", strprintf("%s:magic%d:P%d", ENCN[e2], magic, P < 0 ? -1 : P == 0 ? 0 : P < 20 ? 1 : 20), "the same text with a %s signature and with a %s signature yields different content: %s", ENCN[first_enc], ENCN[e2], first_diff(first, d).c_str());
+        }
+    }
     return res;
 }
